@@ -43,6 +43,9 @@ type likeCase struct {
 	// Strict (enum): the enum column is declared over exactly its values (newqf.Enums with a value list)
 	// instead of deriving them from the data: patterns are still patterns, not constants to validate
 	Strict bool `json:"strict,omitempty"`
+	// NotFirst (with HasP2): the filter is Or(Not(s cmp Pattern), s cmp Pattern2): a member that is a clause of its own,
+	// not a plain filter (the members are then combined frame by frame)
+	NotFirst bool `json:"not_first,omitempty"`
 }
 
 var c18cells []string
@@ -253,9 +256,18 @@ func runLikeCase(c likeCase) *core.Failure {
 		}
 	}
 	in := model.Observe(qf)
+	// a short history: a filter that FAILS after an earlier member of its Or has already selected rows (an invalid
+	// pattern behind a pattern matching everything), on this very frame, directly before
+	if bad := qf.Filter(qframe.Or(qframe.Filter{Column: "s", Comparator: "like", Arg: "%"}, qframe.Filter{Column: "s", Comparator: c.Cmp, Arg: "(%"})); bad.Err == nil {
+		return core.Failf("Or(s like %%, s %s \"(%%\") reported no error for the invalid pattern", c.Cmp)
+	}
 	res := qf.Filter(qframe.Filter{Column: "s", Comparator: c.Cmp, Arg: c.Pattern})
 	if c.HasP2 {
-		res = qf.Filter(qframe.Or(qframe.Filter{Column: "s", Comparator: c.Cmp, Arg: c.Pattern}, qframe.Filter{Column: "s", Comparator: c.Cmp, Arg: c.Pattern2}))
+		first := qframe.FilterClause(qframe.Filter{Column: "s", Comparator: c.Cmp, Arg: c.Pattern})
+		if c.NotFirst {
+			first = qframe.Not(first)
+		}
+		res = qf.Filter(qframe.Or(first, qframe.Filter{Column: "s", Comparator: c.Cmp, Arg: c.Pattern2}))
 	}
 	col, _, _ := in.Col("s")
 	idc, _, _ := in.Col("id")
@@ -263,9 +275,15 @@ func runLikeCase(c likeCase) *core.Failure {
 	var perr error
 	for r, cell := range col.Cells {
 		if cell.Null {
+			if c.NotFirst && c.HasP2 {
+				want = append(want, idc.Cells[r].I) // a null cell never matches, so it passes the negation
+			}
 			continue
 		}
 		m, err := model.LikeMatch(c.Pattern, cell.S, c.Cmp == "like")
+		if c.NotFirst {
+			m = !m
+		}
 		if err == nil && c.HasP2 {
 			var m2 bool
 			m2, err = model.LikeMatch(c.Pattern2, cell.S, c.Cmp == "like")
@@ -454,6 +472,15 @@ func c18Run(ctx *core.Ctx) {
 				}
 				if ctx.Mine() {
 					exec(likeCase{Pattern: p1, Pattern2: p2, HasP2: true, Cmp: cmp, Order: "asc", Enum: true, Chunk: 0}, "or/enum")
+				}
+				// ... with the first member negated, on derived frames (sorted: the index is a permutation)
+				for _, sub := range []string{"", "sorted-all", "sorted-head", "filtered"} {
+					if ctx.Mine() {
+						exec(likeCase{Pattern: p1, Pattern2: p2, HasP2: true, NotFirst: true, Cmp: cmp, Order: "asc", Sub: sub}, "or-not/string")
+					}
+					if ctx.Mine() {
+						exec(likeCase{Pattern: p1, Pattern2: p2, HasP2: true, NotFirst: true, Cmp: cmp, Order: "asc", Enum: true, Chunk: 0, Sub: sub}, "or-not/enum")
+					}
 				}
 			}
 		}
